@@ -167,7 +167,10 @@ def run(ctx):
     ctx.sample({"bclass": "names", "body": json.dumps({"jsonrpc": "2.0", "method": "sub._hidden", "id": 1})})
     # 2. generated registries: signatures x arities, exception classes
     for r in range(ctx.pick(6, 200)):
-        mode = "default"  # C05 states its codes for registries of functions and instances, not custom dispatchers
+        # C05 states its codes for registries of functions and instances, not custom dispatch functions; an instance
+        # routing through its own _dispatch method is an instance: whatever its methods raise is a -32603 naming it,
+        # and they run exactly once (unknown names / bad arities are its _dispatch's own failures: -32603)
+        mode = "default" if r % 4 != 3 else "instance-dispatch"
         v = rng.choice([2.0, 1.0])
         reg = gen_registry(rng, mode)
         fx = dm.Fixture(reg, version=v)
